@@ -17,7 +17,8 @@ RULE = ("cases = generated .sym files (MODULE line, then any number and order of
 TRUSTED = ["the Coq tokenizers in Lib/Bytes.v + Model/BreakpadIndex.v transcribe the nom parsers (tag/space1/decimal_u32/hex_str); MODULE validity is modelled as 'third field is 32..40 hex digits'",
            "sort_unstable_by_key + dedup_by_key modelled as stable sort + keep-first (files with duplicate addresses/indices are outside the well-formedness hypothesis and only compared with the model)",
            "harness h_symbols/src/bp.rs and memhelper.rs"]
-ASSUMPTIONS = ["'agrees with the text' is checked (not yet proved) against Spec/BreakpadText.v for well-formed files; the chunking theorems are proved for every partition",
+ASSUMPTIONS = ["'agrees with the text' is proved (C10_lookup_agrees_with_text) for every well-formed text below 4 GiB (wf_text in Spec/BreakpadText.v) and every address, over the models of the creator and of the lookup; "
+               "the correspondence run ties those models to samply-symbols and also checks the implementation's answers against the text specification directly",
                "names are ASCII without trailing spaces"]
 
 
